@@ -33,4 +33,5 @@ def run(ctx):
     ctx.run("C04.CLEANUP", "R-ORDER", par.c04_cleanup)
     ctx.run("C04.RESET", "R-RESET", par.c04_reset)
     ctx.run("C04.CALLID", "R-LOCK/R-ORDER", par.c04_callid)
+    ctx.run("C04.CALLBACK-TOTAL", "R-ORDER", par.c04_callback_total)
     ctx.run("C04.WRAP", "R-ERRDISC", par.c04_wrap)
